@@ -45,6 +45,8 @@ JudgeLine ==
     ELSE IF \E k \in 1..(2 * D) : (Tr.lce[k + 1] /\ ~Tr.lce[k]) \/ (Tr.lce_s[k + 1] /\ ~Tr.lce_s[k]) THEN 6
     \* ... also below 0 ("all thresholds"): lce_neg = the answers for the thresholds -1 and -0.001, which lie below threshold 0
     ELSE IF \E j \in 1..Len(Tr.lce_neg) : (Tr.lce[1] /\ ~Tr.lce_neg[j]) \/ (Tr.lce_s[1] /\ ~Tr.lce_neg_s[j]) THEN 6
+    \* ... and as the system applies it (PageDecoder.decode_line keeps / decodes the line): sys = answers for -1, -0.001, 0, 1/(2D), .., 1
+    ELSE IF \E j \in 1..(Len(Tr.sys) - 1) : (Tr.sys[j + 1] /\ ~Tr.sys[j]) \/ (Tr.sys_s[j + 1] /\ ~Tr.sys_s[j]) THEN 6
     ELSE IF OneHot(w) /\ (Tr.one_cmp > TOL \/ \E k \in 0..(2 * D - 1) : ~Tr.lce[k + 1]) THEN 7
     ELSE IF OneHotForOf(w, labels, al) /\ Tr.one > TOL THEN 7
     ELSE IF ~Strict THEN 0
@@ -63,7 +65,8 @@ JudgeBag ==
     ELSE IF Tr.dshift > TOL THEN 4                                      \* the same bag with a constant added to every score
     ELSE IF Tr.confdev > TOL THEN 8                                     \* the bag confidence is the largest (normalised) posterior
     ELSE IF NH = 1 /\ (Tr.post[1] < 999999 \/ Tr.conf < 999999) THEN 7
-    ELSE IF ~Strict THEN 0
+    \* wide = a bag with a large dynamic range (scores hundreds of nats apart): judged by the clauses above only
+    ELSE IF ~Strict \/ Tr.wide THEN 0
     ELSE IF \E i \in 1..NH : ~ApproxQ(Tr.post[i], BagPost(i)) \/ ~ApproxQ(Tr.tconf[i], BagPost(i)) THEN 15
     ELSE IF ~ApproxQ(Tr.conf, MaxQ({BagPost(i) : i \in 1..NH})) \/ Tr.tabsent # 0 THEN 15
     ELSE 0
